@@ -128,6 +128,8 @@ class SimSlurm:
         self.sbatch_count = 0
         self.cmd_log = []
         self.refused = {}
+        self.sticky_refused = set()  # scripts the scheduler refuses on every attempt (fault 'fail-all')
+        self.squeue_down = set()  # vproc indices for which squeue fails on every attempt of this round
 
     # ----------------------------------------------------------------- state for caching
     def state_repr(self):
@@ -139,7 +141,7 @@ class SimSlurm:
             parts.append(f"{vi}.{n}")
         parts.append("|")
         parts.append(",".join(f"{k}={v}" for k, v in sorted(self.attempt.items())))
-        parts.append(f"|{self.sbatch_count}")
+        parts.append(f"|{self.sbatch_count}|{sorted(self.sticky_refused)}|{sorted(self.squeue_down)}")
         return " ".join(parts)
 
     # ----------------------------------------------------------------- scenario answers
@@ -208,8 +210,11 @@ class SimSlurm:
         with raw():
             info = self._parse_submission(script)
         self.sbatch_count += 1
-        if alt in ("fail", "fail-all") or (os.path.basename(script) in w.scen.get("refuse_scripts", ())
-                                           and not w.data.get("epoch")):
+        rel_script = w.rel(script) or script
+        if alt == "fail-all":
+            self.sticky_refused.add(rel_script)
+        if alt in ("fail", "fail-all") or rel_script in self.sticky_refused or (
+                os.path.basename(script) in w.scen.get("refuse_scripts", ()) and not w.data.get("epoch")):
             # a clean refusal (the scheduler did not accept the job); scripted by the scenario or a fault
             if not self.refused.get(script):
                 self.refused[script] = True
@@ -302,7 +307,9 @@ class SimSlurm:
         return info
 
     def squeue(self, vp, argv, alt):
-        if alt in ("fail", "fail-all"):
+        if alt == "fail-all":
+            self.squeue_down.add(vp.index)
+        if alt in ("fail", "fail-all") or vp.index in self.squeue_down:
             return 1, b"", b"slurm_load_jobs error: Socket timed out on send/recv operation\n"
         fmt = None
         jid = None
